@@ -27,6 +27,12 @@ def _is_digit(ch: str) -> bool:
     return "0" <= ch <= "9"
 
 
+def _case_code(ch: str, mapped: str) -> int:
+    """Code point of ch after a case mapping. A mapping that does not yield a
+    single character (ß -> SS) does not apply: the character stands for itself."""
+    return ord(mapped) if len(mapped) == 1 else ord(ch)
+
+
 def _is_word(ch: str) -> bool:
     return ch in _WORD_CHARS
 
@@ -232,7 +238,10 @@ class RegexVM:
 
                 ch = string[sp]
                 if self.ignorecase:
-                    match = ord(ch.lower()) == char_code or ord(ch.upper()) == char_code
+                    match = (
+                        _case_code(ch, ch.lower()) == char_code
+                        or _case_code(ch, ch.upper()) == char_code
+                    )
                 else:
                     match = ord(ch) == char_code
 
@@ -325,7 +334,7 @@ class RegexVM:
                     continue
 
                 ch = string[sp]
-                ch_code = ord(ch.lower() if self.ignorecase else ch)
+                ch_code = _case_code(ch, ch.lower()) if self.ignorecase else ord(ch)
 
                 matched = False
                 for start, end in ranges:
@@ -334,7 +343,7 @@ class RegexVM:
                         if start <= ch_code <= end:
                             matched = True
                             break
-                        ch_upper = ord(ch.upper())
+                        ch_upper = _case_code(ch, ch.upper())
                         if start <= ch_upper <= end:
                             matched = True
                             break
@@ -360,7 +369,7 @@ class RegexVM:
                     continue
 
                 ch = string[sp]
-                ch_code = ord(ch.lower() if self.ignorecase else ch)
+                ch_code = _case_code(ch, ch.lower()) if self.ignorecase else ord(ch)
 
                 matched = False
                 for start, end in ranges:
